@@ -1,4 +1,5 @@
 import WebPkg.Proofs.SxgVerify
+import WebPkg.Proofs.GoTimeSane
 /-
   C09 — Signed-exchange acceptance policy is enforced exactly.
   Model: Model/SxgVerify.lean (verifier.go, stateful_headers.go after fixes F10, F13).
@@ -49,6 +50,20 @@ theorem lowerAscii_idem (s : Bytes) : lowerAscii (lowerAscii s) = lowerAscii s :
 
 theorem isUncached_case_insensitive (a b : Bytes) (h : lowerAscii a = lowerAscii b) :
     isUncachedHeader a = isUncachedHeader b := by simp [isUncachedHeader, h]
+
+/-- T4: on the sane range (|date|, |expires|, |t| < 2^62 seconds) Go's `time.Unix` / `Sub` / `Before` / `After`
+    window test is exactly: lifetime ≤ 604800 s and date ≤ t ≤ expires as instants (overflow branch of
+    `Time.Sub` included). -/
+theorem timestamps_iff (s : Signature) (ts tn : Int)
+    (hd : -(2:Int)^62 ≤ s.date ∧ s.date < (2:Int)^62) (hx : -(2:Int)^62 ≤ s.expires ∧ s.expires < (2:Int)^62)
+    (ht : -(2:Int)^62 ≤ ts ∧ ts < (2:Int)^62) (hn : 0 ≤ tn ∧ tn < 1000000000) :
+    timestampsOk s (GoTime.ofUnix ts tn) = true ↔
+      (s.expires - s.date ≤ 604800 ∧ (s.date < ts ∨ (s.date = ts ∧ 0 ≤ tn)) ∧ (ts < s.expires ∨ (ts = s.expires ∧ tn ≤ 0))) :=
+  timestampsOk_iff s ts tn hd hx ht hn
+
+/-- T5: same-origin is an equivalence-style test on (scheme, host, port) facts -/
+theorem sameOrigin_reflexive (a : Bytes × Bytes × Bytes) : sameOrigin a a = true := sameOrigin_refl a
+theorem sameOrigin_symmetric (a b : Bytes × Bytes × Bytes) : sameOrigin a b = sameOrigin b a := sameOrigin_symm a b
 
 /-! non-vacuity: the tables are the ones of the spec (sizes) -/
 example : uncachedHeaders.length = 19 ∧ statefulRequestHeaders.length = 5 := by decide
